@@ -654,33 +654,6 @@ class _Interp(object):
     def __init__(self, repo, budget=20000):
         self.repo, self.budget = repo, budget
 
-    def call(self, fi, args, depth=0):
-        if depth > 6:
-            raise _Unsupported('call depth')
-        a = fi.node.args
-        if a.vararg or a.kwarg or a.kwonlyargs:
-            raise _Unsupported('signature of %s' % fi.qualname)
-        params = [p.arg for p in a.posonlyargs + a.args]
-        static = any(isinstance(d, ast.Name) and d.id == 'staticmethod' for d in fi.node.decorator_list)
-        env = {}
-        if fi.cls is not None and not static:
-            if not params:
-                raise _Unsupported('method without receiver')
-            env[params.pop(0)] = ('<receiver>', fi.cls)
-        defaults = dict(zip(params[len(params) - len(a.defaults):], a.defaults)) if a.defaults else {}
-        if len(args) > len(params):
-            raise _PyRaise(TypeError('too many arguments'))
-        for p, v in zip(params, args):
-            env[p] = v
-        for p in params[len(args):]:
-            if p not in defaults:
-                raise _PyRaise(TypeError('missing argument %s' % p))
-            env[p] = self.ev(defaults[p], {}, fi, depth)
-        sig = self.block(fi.node.body, env, fi, depth)
-        if sig is not None and sig[0] == 'return':
-            return sig[1]
-        return None
-
     # -- statements ------------------------------------------------------------------------------------------
     def block(self, stmts, env, fi, depth):
         for s in stmts:
@@ -1607,22 +1580,6 @@ def run(rep):
                 if len(vals) == 1 and isinstance(vals[0], ast.Attribute):
                     t = vals[0].attr
             return t
-        for r in returns_of(sr):
-            v = r.value
-            if isinstance(v, ast.Call) and renderer_of(v) in ('json_render', 'tabular_render'):
-                n_branches += 1
-                cs = conds(sr, r)
-                mimes = _mime_tests(cs, lambda a: _fold_const(repo, sr, a))
-                ok = len(set(mimes)) == 1 and want_map.get(mimes[0]) == renderer_of(v)
-                if ok:
-                    branch_mimes.add(mimes[0])
-                rep.check('R17.c', fkey(sr, 'branch ' + renderer_of(v)), ok,
-                          '%s serves %s' % (renderer_of(v), mimes) if ok else
-                          '%s is returned under mime test %r (expected %s)' % (renderer_of(v), mimes,
-                                                                                  [k for k, x in want_map.items() if x == renderer_of(v)]),
-                          simple, r)
-        if not n_branches:
-            raise AnalysisError('_serialize_to_resp: the returns that call json_render / tabular_render were not found')
         # ---- R17.e -----------------------------------------------------------
         rep.rule('R17.e', '_format_mime_map, _default_mime and the branches of _serialize_to_resp agree')
         br = simple.cls('BasicRender')
@@ -1644,6 +1601,29 @@ def run(rep):
                 raise ValueError('not a table')
         except Exception as e:
             raise AnalysisError('cannot fold BasicRender format tables: %s' % e)
+        for r in returns_of(sr):
+            v = r.value
+            if isinstance(v, ast.Call) and renderer_of(v) in ('json_render', 'tabular_render'):
+                n_branches += 1
+                cs = conds(sr, r)
+                fold_ = lambda a: _fold_const(repo, sr, a)
+                mimes = _mime_tests(cs, fold_)
+                if not mimes:
+                    # the fall-through renderer: serves whatever the tests before it did not pick from the table
+                    neg = _mime_tests([(t, not p) for t, p in cs], fold_)
+                    rest = sorted(set(fmm.values()) - set(neg))
+                    if neg and len(rest) == 1:
+                        mimes = rest
+                ok = len(set(mimes)) == 1 and want_map.get(mimes[0]) == renderer_of(v)
+                if ok:
+                    branch_mimes.add(mimes[0])
+                rep.check('R17.c', fkey(sr, 'branch ' + renderer_of(v)), ok,
+                          '%s serves %s' % (renderer_of(v), mimes) if ok else
+                          '%s is returned under mime test %r (expected %s)' % (renderer_of(v), mimes,
+                                                                                  [k for k, x in want_map.items() if x == renderer_of(v)]),
+                          simple, r)
+        if not n_branches:
+            raise AnalysisError('_serialize_to_resp: the returns that call json_render / tabular_render were not found')
         for fmt, mime in sorted(fmm.items()):
             rep.check('R17.e', '%s::BasicRender._format_mime_map[%s]' % (SIMPLE, fmt), mime in branch_mimes,
                       'format %r -> %r has a serving branch' % (fmt, mime) if mime in branch_mimes else
